@@ -14,6 +14,7 @@ import QuantityModel.Model.Text
 import QuantityModel.Gen.Iso4217
 import QuantityModel.Gen.Catalogue
 import QuantityModel.Gen.TempTable
+import QuantityModel.Gen.Prefixes
 import QuantityModel.Ref.SIRef
 namespace QM.Driver
 open QM
@@ -192,7 +193,13 @@ def observe (r : RegState) : String :=
     s!"{ci.name}[{us}]ref={(ci.refUnit.map (usym r)).getD "none"} q={showOptRat ci.quantum}"
   " ".intercalate (syms.toArray.qsort (· < ·)).toList ++ " | " ++ " ".intercalate classes
 
-def parseAmount? (s : String) : Option Rat :=
+/-- `I:` a Python int, `L:` a float (its exact binary value), `P:` a standard
+library Decimal: the constructor turns each into the Decimal of that value -/
+def stripKind (s : String) : String :=
+  if s.startsWith "I:" || s.startsWith "L:" || s.startsWith "P:" then (s.drop 2).toString else s
+
+def parseAmount? (s0 : String) : Option Rat :=
+  let s := stripKind s0
   if s.startsWith "F:" then parseRat? (s.drop 2).toString
   else if s.startsWith "D:" then
     match (s.drop 2).toString.splitOn ":" with
@@ -211,7 +218,8 @@ def strip10 : Nat → Nat → Nat → Nat → Option Nat
     else if d % 5 == 0 then strip10 fuel (d / 5) a (b + 1)
     else none
 
-def decPair? (s : String) : Option (Int × Nat) :=
+def decPair? (s0 : String) : Option (Int × Nat) :=
+  let s := stripKind s0
   if s.startsWith "F:" then none
   else if s.startsWith "D:" then
     match (s.drop 2).toString.splitOn ":" with
@@ -332,6 +340,12 @@ def stepReg (st : DState) (args : List String) : Option (DState × String) :=
         let old := q.clsConverters c
         let convs := (q.converters.filter fun p => p.1 != c) ++ [(c, old ++ [tid])]
         some ({ st with q := { q with tables := q.tables ++ [{ rows := rws }], converters := convs } }, "ok")
+  | ["prefix", const] =>
+    -- the SI prefix bound to the module-level constant `const` of
+    -- si_prefixes.py (translated table): name, abbreviation, factor
+    match Gen.siPrefixes.find? fun p => p.1 == const with
+    | some (_, name, abbr, e) => some (st, s!"ok {name} {abbr} {ratStr (rpow 10 e)}")
+    | none => some (st, "err AttributeError")
   | ["siref"] =>
     -- dump of the hand-written reference table (for the independent oracle)
     let lin := Ref.linearUnits.map fun (c, sy, k) => s!"{c}|{sy}|{ratStr k}"
@@ -819,6 +833,13 @@ def step (s : DState) (line : String) : DState × String :=
   match args with
   | ["reset"] => (DState.init, "ok reset")
   | ["numkind", _] => (s, "ok")   -- representation of numbers on the Python side only
+  | ["q_alloc_cmp", a, ratios, _other, dflt] =>
+    -- every portion of an allocation compares with an equal quantity in another
+    -- unit as its amount says (C04): the model answers `true` whenever the
+    -- allocation itself succeeds
+    match stepReg s ["q_alloc", a, ratios, "1", dflt] with
+    | some (s', out) => (s', if out.startsWith "ok " then "ok true" else out)
+    | none => (s, bad)
   | _ =>
     match stepRounding args with
     | some out => (s, out)
